@@ -363,7 +363,7 @@ pub fn run(ck: &mut Check) {
          Non-trivial = event type with version-dependent redaction, multi-signer requirement, or any post-signing change.",
     );
     ck.assume("join_authorised_via_users_server is generated only inside member-join contents with a valid user id (the spec's domain); other occurrences are removed and counted as brought_into_domain");
-    let n = ck.n(60_000, 1_000_000);
+    let n = ck.n(100_000, 1_000_000);
     let post = || {
         let m = prop_oneof![
             3 => any::<u16>().prop_map(Mutation::ModifyTop),
@@ -406,7 +406,7 @@ pub fn run(ck: &mut Check) {
     // the multi-signer situations get a generator of their own (they are < 1% of G1): restricted
     // joins authorised by a user of another server (v8-11), events whose id names another server
     // (v1-2), third-party invites - each with every attack on every required signer
-    let n2 = ck.n(20_000, 400_000);
+    let n2 = ck.n(40_000, 400_000);
     ck.prop(
         "multi_signer_attacks",
         n2,
